@@ -28,6 +28,10 @@ pub uninterp spec fn spec_mk_bool(b: bool) -> Object;
 #[verifier::external_body]
 pub fn fmt_opaque() -> String { String::new() }   // R1: error message text is not specified
 
+/// R1p: panic!/unimplemented! sites become calls of this function: they must be proved unreachable
+#[verifier::external_body]
+pub fn vpanic() -> ! requires false { panic!() }
+
 impl Object {
     // PROVED-BY: O15.5 c15_tag_total
     #[verifier::external_body]
